@@ -17,7 +17,7 @@ def Out.isEnd : Out → Bool
   | _ => false
 
 macro "sess_simp" : tactic => `(tactic|
-  simp [step, stepRunning, stepWait, onIncomingEnd, onError, endSession, settle, overwrite, Err.res,
+  simp [step, stepRunning, stepWait, onIncomingEnd, onIncomingEndQueued, onError, endSession, settle, overwrite, Err.res,
     Sess.on_incoming_end, Sess.send_end, Sess.end_session_arm, Sess.on_outgoing_link_frames_arm,
     end_session.arg_wait_for_remote_end_0, end_session.arg_wait_for_remote_end_1, end_session.arg_wait_for_remote_end_2,
     Out.isEnd])
@@ -43,18 +43,21 @@ theorem ending_step (s : St) (e : Event) (h : Ending s) : (step s e).2 = [] ∧ 
     | running =>
       rcases h with rfl | rfl | rfl <;> cases e with
       | peerEnd we => cases we <;> sess_simp
+      | peerEndQueued we => cases we <;> sess_simp
       | peerFrame ok => cases ok <;> sess_simp
       | ctlEnd we => cases we <;> sess_simp
       | linkOut => sess_simp
     | waitEnd d t =>
       rcases h with rfl | rfl | rfl <;> cases e with
       | peerEnd we => cases we <;> cases t <;> sess_simp
+      | peerEndQueued we => cases we <;> cases t <;> sess_simp
       | peerFrame ok => cases ok <;> cases d <;> sess_simp
       | ctlEnd we => sess_simp
       | linkOut => sess_simp
   · subst hp
     rcases h with rfl | rfl | rfl <;> cases e with
     | peerEnd we => cases we <;> cases t <;> sess_simp
+    | peerEndQueued we => cases we <;> cases t <;> sess_simp
     | peerFrame ok => cases ok <;> cases d <;> sess_simp
     | ctlEnd we => sess_simp
     | linkOut => sess_simp
@@ -70,6 +73,7 @@ theorem mapped_step (s : St) (e : Event) (hs : s.ss = .mapped) (hp : s.phase = .
   simp only [Inv, Ending]
   cases e with
   | peerEnd we => cases we <;> sess_simp
+  | peerEndQueued we => cases we <;> sess_simp
   | peerFrame ok => cases ok <;> sess_simp
   | ctlEnd we => cases we <;> sess_simp
   | linkOut => cases linksClosed <;> sess_simp
@@ -130,6 +134,19 @@ theorem at_most_one_end (evs : List Event) (s : St) (h : Inv s) : ((run s evs).2
 theorem peer_end_answered (s : St) (we : Bool) (hs : s.ss = .mapped) (hp : s.phase = .running) :
     (step s (.peerEnd we)).2 = [.end_ false] ∧ (step s (.peerEnd we)).1.phase = .stopped ∧
     (step s (.peerEnd we)).1.res = some (if we then .remoteEndedWithError else .remoteEnded) := by
+  obtain ⟨ss, phase, res, linksClosed⟩ := s
+  simp only at hs hp
+  subst hs hp
+  cases we <;> sess_simp
+
+/-- **a peer's end is answered also when frames of the session's links are still queued** (C13): the
+    queued frames cannot go out any more (the state has left MAPPED), the arm that takes up the end leaves
+    early — and `end_session`, entered in END RECEIVED, writes the end all the same: exactly one end (with
+    an error), the engine stops, the handle learns why.  (A seeded change folded that arm of `end_session`
+    into the one that has nothing to send: the peer's end then stays unanswered.) -/
+theorem peer_end_answered_with_frames_queued (s : St) (we : Bool) (hs : s.ss = .mapped) (hp : s.phase = .running) :
+    (step s (.peerEndQueued we)).2 = [.end_ true] ∧ (step s (.peerEndQueued we)).1.phase = .stopped ∧
+    (step s (.peerEndQueued we)).1.res = some .illegalState := by
   obtain ⟨ss, phase, res, linksClosed⟩ := s
   simp only at hs hp
   subst hs hp
